@@ -28,7 +28,7 @@ func checkC17(c *Ctx) {
 	c.includeKeys("genesis", "C15", rulesIn("C15.faithful-import", "C15.field-roundtrip", "C15.prefix-export"), func(rule, key string) bool {
 		return strings.Contains(key, "AddressKey") || strings.Contains(key, "DelegateKeys")
 	})
-	r.Min("C17.triple", 2)
+	r.Min("C17.triple", 3)
 	r.Min("C17.self", 1)
 	r.Min("C17.writers", 2)
 	r.Min("C17.attribution", 1)
@@ -356,11 +356,29 @@ func checkC17(c *Ctx) {
 	}
 
 	// ---- C17.scan-complete: the in-use scans visit every entry ------------------------------
+	inScan := map[*ssa.Function]bool{}
+	for _, m := range roots.Msg {
+		if !hasEff(c.Effects(m), "store", "Set", "ValidatorExternalAddressKey") && !hasEff(c.Effects(m), "store", "Set", "ExternalOrchestratorAddressKey") {
+			continue
+		}
+		for g := range p.Reach(m) {
+			inScan[g] = true
+		}
+	}
 	for _, g := range sortedFuncs(c.ConsensusReach()) {
 		full := false
 		for _, op := range p.StoreOps(g) {
-			if op.IsIter() && len(op.Key.Parts) == 0 {
+			if !op.IsIter() {
+				continue
+			}
+			if len(op.Key.Parts) == 0 {
 				full = true
+			}
+			// a scan of a delegate-key index by prefix
+			if pn := c.prefixName(op); pn == "ValidatorExternalAddressKey" || pn == "ExternalOrchestratorAddressKey" || pn == "OrchestratorValidatorAddressKey" {
+				if inScan[g] {
+					full = true
+				}
 			}
 		}
 		if !full {
@@ -369,6 +387,8 @@ func checkC17(c *Ctx) {
 		ok, why := loopOnlyExitsAtHeader(g)
 		r.Check(ok, "C17.guards", "scan-complete:"+fname(g), p.Pos(g.Pos()), "the in-use scan leaves its loop only when the iterator is exhausted", "an in-use scan can stop before visiting every entry: "+why)
 	}
+
+	c.checkExportPairing()
 
 	// ---- C17.generator -----------------------------------------------------------------
 	c.checkKeysGenerator()
@@ -489,4 +509,72 @@ func loopOnlyExitsAtHeader(f *ssa.Function) (bool, string) {
 		return true, ""
 	}
 	return false, "no iterator loop found"
+}
+
+// checkExportPairing: in the function that lists the registrations for export / the DelegateKeys query, the
+// orchestrator reported with an entry is the one looked up under that entry's own external address.
+func (c *Ctx) checkExportPairing() {
+	p, r := c.P, c.R
+	n := 0
+	for _, f := range sortedFuncs(c.LiveReach()) {
+		if p.L.IsGenerated(f.Pos()) || c.isGenesisImport(f) || isRoot(f, c.Roots().Msg) {
+			continue
+		}
+		ana.Instrs(f, func(in ssa.Instruction) {
+			st, ok := in.(*ssa.Store)
+			if !ok {
+				return
+			}
+			fa, ok := st.Addr.(*ssa.FieldAddr)
+			if !ok {
+				return
+			}
+			sty := structOf(fa.X.Type())
+			tn := ana.NamedOf(fa.X.Type())
+			if sty == nil || tn == nil || tn.Obj().Name() != "MsgDelegateKeys" || sty.Field(fa.Field).Name() != "OrchestratorAddress" {
+				return
+			}
+			n++
+			l := p.Leaves(st.Val, ana.PVOpt{Opaque: func(d ana.CalleeDesc) bool { return d.Recv == "Keeper" }})
+			okLookup := false
+			detail := strings.Join(l.List(), ",")
+			for _, vals := range l.Vals {
+				for _, v := range vals {
+					call, _ := ana.UnwrapCall(v)
+					if call == nil {
+						continue
+					}
+					lookup := false
+					for _, callee := range p.Callees(call) {
+						if hasEff(c.Effects(callee), "store", "Get", "ExternalOrchestratorAddressKey") {
+							lookup = true
+						}
+					}
+					if !lookup {
+						continue
+					}
+					// keyed by the same entry's external address
+					for _, a := range call.Call.Args {
+						la := p.Leaves(a, ana.PVOpt{})
+						if la.HasField("MsgDelegateKeys.ExternalAddress") {
+							for _, lv := range la.Vals {
+								for _, x := range lv {
+									root, path := rootAndPath(x)
+									eroot, _ := fieldRoot(fa)
+									if path == "ExternalAddress" && (root == eroot || root == fa.X) {
+										okLookup = true
+									}
+								}
+							}
+						}
+					}
+				}
+			}
+			r.Check(okLookup, "C17.triple", "listing:"+fname(f), c.pos(st), "a listed registration carries the orchestrator stored under its own external address",
+				"a listed registration's orchestrator is not looked up under that entry's own external address ("+detail+"): an export / query can pair a validator with another validator's orchestrator, and the import writes the pair without any signature")
+		})
+	}
+	if n == 0 {
+		r.Undecided("C17.triple", "listing", "-", "no function fills MsgDelegateKeys.OrchestratorAddress for export")
+	}
 }
